@@ -17,6 +17,51 @@ REPO = os.environ.get('VERIF_REPO', '/repo')
 EXIT_OK, EXIT_VIOLATION, EXIT_HARNESS = 0, 1, 3
 
 
+def _pypath(env):
+    # VERIF_REPO (default /repo) may point at a scratch worktree carrying a seeded change: its openmdao wins
+    parts = [HERE] + ([REPO] if REPO != '/repo' else []) + [env.get('PYTHONPATH', '')]
+    return os.pathsep.join(p for p in parts if p)
+
+
+EVID = os.environ.get('VERIF_EVIDENCE_DIR') or os.path.join(HERE, 'evidence' if REPO == '/repo' else '.scratch/evidence_alt')
+REPLAYS = os.path.join(HERE, 'replays') if REPO == '/repo' else os.path.join(EVID, 'replays')
+
+
+_PALETTE = ['0', '1', '-1', '1/2', '-1/2', '2', '-2', '3', '1/3', '-3/2', '5/4', '7', '-5', '1/10', '9/10']
+
+
+def concretise_search(base, want, kind, ntry=40):
+    """The solver's model of a counterexample can be unreal when the path uses abstracted functions
+    (exp/log/sqrt atoms constrained only by instantiated axioms) or inexact constants.  Before giving up on
+    such a candidate, look for a *real* witness of the same failed obligation: concrete rational inputs are
+    drawn around the model (same booleans, numbers from the model or a small palette) and each is run on the
+    unmodified float code.  Only an input that makes the real code fail the same obligation is reported."""
+    import random
+    rng = random.Random(hashlib.sha1((want + json.dumps(base['inputs'], sort_keys=True)).encode()).hexdigest())
+    jobs = []
+    for t in range(ntry):
+        inp = {}
+        for k, v in base['inputs'].items():
+            if isinstance(v, str) and '/' in v and not isinstance(v, bool):
+                r = rng.random()
+                inp[k] = v.lstrip('~?') if r < 0.25 else rng.choice(_PALETTE)
+            else:
+                inp[k] = v
+        jobs.append(dict(base, inputs=inp, mode='float'))
+    res = run_batch(jobs, 900)
+    for j, r in zip(jobs, res):
+        if not r.get('ok') or 'unmet' in r:
+            continue
+        if kind == 'exception':
+            if (r.get('raised') or {}).get('name') == want:
+                return j['inputs'], r.get('raised')
+            continue
+        for n, okv, meta in r.get('obligations', []):
+            if n == want and not okv:
+                return j['inputs'], meta
+    return None, None
+
+
 def run_job(job, kill_after):
     fd, outp = tempfile.mkstemp(prefix='symx_out_', suffix='.json')
     os.close(fd)
@@ -24,7 +69,7 @@ def run_job(job, kill_after):
     with os.fdopen(fd, 'w') as f:
         json.dump(job, f)
     env = dict(os.environ)
-    env['PYTHONPATH'] = HERE + os.pathsep + env.get('PYTHONPATH', '')
+    env['PYTHONPATH'] = _pypath(env)
     env['OPENMDAO_REPORTS'] = '0'
     env['PYTHONDONTWRITEBYTECODE'] = '1'
     env.pop('OPENMDAO_NO_RELEVANCE', None)
@@ -60,7 +105,7 @@ def run_batch(jobs, kill_after):
     with os.fdopen(fd, 'w') as f:
         json.dump(dict(batch=jobs), f)
     env = dict(os.environ)
-    env['PYTHONPATH'] = HERE + os.pathsep + env.get('PYTHONPATH', '')
+    env['PYTHONPATH'] = _pypath(env)
     env['OPENMDAO_REPORTS'] = '0'
     env['PYTHONDONTWRITEBYTECODE'] = '1'
     env.pop('OPENMDAO_NO_RELEVANCE', None)
@@ -208,7 +253,7 @@ def main(argv=None):
     cand = list(seen.values())
     max_replays = 24
     confirmed, real_only, encoding_bad, unreplayed = [], [], [], []
-    os.makedirs(os.path.join(HERE, 'replays'), exist_ok=True)
+    os.makedirs(REPLAYS, exist_ok=True)
 
     def replay_one(item):
         jd, f = item
@@ -217,6 +262,7 @@ def main(argv=None):
         re_ = run_job(dict(base, mode='exact', profile=False, wall_s=120), 900)
         rf_ = run_job(dict(base, mode='float'), 900)
         return item, approx, re_, rf_
+    nsearch = [0]
     with cf.ThreadPoolExecutor(max_workers=a.jobs) as pool:
         for (jd, f), approx, rex, rfl in pool.map(replay_one, cand[:max_replays]):
             want = f['name']
@@ -237,8 +283,14 @@ def main(argv=None):
                     if not fl_ok and rfl.get('raised') and not any(n == want for n, _, _ in rfl.get('obligations', [])):
                         # the float run died before reaching the obligation: report the crash itself
                         detail = rfl['raised']
+            if not fl_ok and not ex_ok and nsearch[0] < 8:
+                nsearch[0] += 1
+                alt, meta2 = concretise_search(dict(check=prop, fn=jd['fn'], params=jd['params'], inputs=f['inputs']), want, f['kind'])
+                if alt is not None:
+                    f = dict(f, inputs=alt, solver_model=f['inputs'])
+                    fl_ok, detail = True, meta2 or {}
             rec = dict(property=prop, harness=jd['fn'], params=jd['params'], kind=f['kind'], obligation=want,
-                       inputs=f['inputs'], message=f.get('message'), goal=f.get('goal'), trace=f.get('trace'),
+                       inputs=f['inputs'], solver_model=f.get('solver_model'), message=f.get('message'), goal=f.get('goal'), trace=f.get('trace'),
                        float_detail=detail, exact_reproduced=ex_ok, float_reproduced=fl_ok,
                        traceback=f.get('traceback'))
             if fl_ok:
@@ -287,7 +339,7 @@ def main(argv=None):
             continue
         violations += 1
         blob = json.dumps(rec, sort_keys=True, default=str)
-        path = os.path.join(HERE, 'replays', f"{prop}-{hashlib.sha1(blob.encode()).hexdigest()[:10]}.json")
+        path = os.path.join(REPLAYS, f"{prop}-{hashlib.sha1(blob.encode()).hexdigest()[:10]}.json")
         with open(path, 'w') as fo:
             fo.write(blob)
         out_lines.append(f'VIOLATION property={prop} replay={path}')
@@ -333,8 +385,8 @@ def main(argv=None):
         # keep the file schema-valid even for a broken run
         cov['evaluations'] = max(1, len(jobs))
         cov['distinct_nontrivial'] = 2
-    os.makedirs(os.path.join(HERE, 'evidence'), exist_ok=True)
-    with open(os.path.join(HERE, 'evidence', prop + '.json'), 'w') as fo:
+    os.makedirs(EVID, exist_ok=True)
+    with open(os.path.join(EVID, prop + '.json'), 'w') as fo:
         json.dump(ev, fo, indent=1, default=str)
 
     for ln in out_lines:
